@@ -147,7 +147,8 @@ dt_io_strfdt(
 	char *restrict buf, size_t bsz,
 	const char *fmt, struct dt_dt_s that, int apnd_ch)
 {
-	size_t res = dt_strfdt(buf, bsz, fmt, that);
+	/* leave room for APND_CH */
+	size_t res = dt_strfdt(buf, bsz - (bsz > 0U), fmt, that);
 
 	if (LIKELY(res > 0) && apnd_ch && buf[res - 1] != apnd_ch) {
 		/* auto-newline */
